@@ -8,11 +8,13 @@ Soundness of delivery: `C01_routing`, `C01_order` (what arrives is a subsequence
 that ID).  Completeness of delivery: `C01_complete` (+ `_classified`, `_inv`, `_nowrap`): a search
 receives EVERY frame the server sent under its ID from the moment the driver handled its request,
 in order, up to and including its Done.  Caller level: `C01_caller_result`, `C01_caller_items`.
+Non-interference of unmatched frames over whole histories: `C01_unmatched_is_invisible`.
 -/
 import Ldap3V.Lemmas.ConnRouteStep
 import Ldap3V.Lemmas.ConnCompleteRun
 import Ldap3V.Lemmas.ConnCompleteCaller
 import Ldap3V.Lemmas.ConnUniq
+import Ldap3V.Lemmas.ConnInert
 namespace Ldap3V.Conn
 
 /-- Whatever the history: a response sitting in an operation's mailbox (what `op_call` will return)
@@ -101,6 +103,61 @@ theorem C01_classification (s : St) (c : Nat) (ch : Chan) (f : Frame) (hc : s.ch
     have h4 : ¬ (f.op = 4 ∨ f.op = 25 ∨ f.op = 19) := by omega
     simp only [routeSearch, if_neg h4, if_pos h5, hg, hc, halive, modifyChan]
     simp
+
+/-! ### an unmatched response disturbs nobody — now or later
+
+`C01_unmatched_inert` is the single step.  History level: take ANY history `a` after which the driver is
+running, the link is up (the server can send) and the driver has read everything the server sent so
+far, and a frame `f` whose ID is in neither routing map.  Let the server send `f` and the driver read
+it — or not — and then let ANYTHING happen (`b`).  The two executions agree on every component of the
+state except the bookkeeping of the server log (`SameBut`: operations with their mailboxes and results,
+channels with their items, the wire, the ID table, both routing maps, both queues, the driver's and
+the link's state, the clock; and the frames the driver has not read yet are the same), and every
+event of `b` is enabled in the same cases and shows the same observation (`observe`: IDs handed out,
+`op_call` results, stream items, time-outs, …). -/
+theorem C01_unmatched_is_invisible (N : Nat) (a b : List Ev) (f : Frame)
+    (hd : (run (init N) a).drv = .running) (hl : (run (init N) a).link = .up)
+    (hp : (run (init N) a).pos = (run (init N) a).srvLog.length)
+    (h1 : lookup (run (init N) a).searchmap f.id = none) (h2 : lookup (run (init N) a).resultmap f.id = none) :
+    SameBut (run (init N) (a ++ b)) (run (init N) (a ++ [.srvSend f, .drvResp] ++ b)) ∧
+    observe (run (init N) a) b = observe (run (init N) (a ++ [.srvSend f, .drvResp])) b := by
+  rw [List.append_assoc, run_concat a b, run_concat a ([Ev.srvSend f, Ev.drvResp] ++ b), run_concat a [Ev.srvSend f, Ev.drvResp]]
+  exact unmatched_invisible (run (init N) a) b f hd hl hp h1 h2
+
+/-- the same from any state (not only reachable ones) -/
+theorem C01_unmatched_is_invisible_from (s : St) (b : List Ev) (f : Frame) (hd : s.drv = .running) (hl : s.link = .up)
+    (hp : s.pos = s.srvLog.length) (h1 : lookup s.searchmap f.id = none) (h2 : lookup s.resultmap f.id = none) :
+    SameBut (run s b) (run s ([.srvSend f, .drvResp] ++ b)) ∧ observe s b = observe (run s [.srvSend f, .drvResp]) b :=
+  unmatched_invisible s b f hd hl hp h1 h2
+
+/-! non-vacuity: two operations in flight, a stray frame with ID 7 arrives before their responses -/
+def exInertPre : List Ev :=
+  [.alloc .single, .enqueue 0 none, .alloc .search, .enqueue 1 none, .drvOp true, .drvOp true, .poll 1]
+
+def exInertPost : List Ev :=
+  [.srvSend ⟨2, 4, 70, false⟩, .srvSend ⟨1, 11, 71, true⟩, .drvResp, .recv 0 none, .drvResp, .poll 0, .alloc .single]
+
+def exStray : Frame := ⟨7, 11, 99, true⟩
+
+example :
+    (run (init 100) exInertPre).drv = .running ∧ (run (init 100) exInertPre).link = .up ∧
+    (run (init 100) exInertPre).pos = (run (init 100) exInertPre).srvLog.length ∧
+    lookup (run (init 100) exInertPre).searchmap exStray.id = none ∧
+    lookup (run (init 100) exInertPre).resultmap exStray.id = none := by
+  refine ⟨by decide, by decide, by decide, by decide, by decide⟩
+
+/-- what the theorem says, computed on the example: same observations, same results, same items; only
+the read position differs -/
+example :
+    observe (run (init 100) exInertPre) exInertPost =
+      [some .none, some .none, some .none, some (.item (some (.entry ⟨2, 4, 70, false⟩))), some .none,
+       some (.res (some (.frame ⟨1, 11, 71, true⟩))), some (.id 3)] ∧
+    observe (run (init 100) (exInertPre ++ [.srvSend exStray, .drvResp])) exInertPost =
+      [some .none, some .none, some .none, some (.item (some (.entry ⟨2, 4, 70, false⟩))), some .none,
+       some (.res (some (.frame ⟨1, 11, 71, true⟩))), some (.id 3)] ∧
+    (run (init 100) (exInertPre ++ [.srvSend exStray, .drvResp] ++ exInertPost)).pos = 3 ∧
+    (run (init 100) (exInertPre ++ exInertPost)).pos = 2 := by
+  refine ⟨by decide, by decide, by decide, by decide⟩
 
 /-! ### non-vacuity (tests): two concurrent operations, responses in the opposite order -/
 def exEvs : List Ev :=
